@@ -473,6 +473,12 @@ end
     from the AST) uses an operator on a kind of operand whose well-definedness is proved above -/
 theorem users_covered : ∀ u ∈ Gen.users, justifiedUse u = true := by decide
 
+/-- the call sites that sort / rank (inside libstdc++ and in the selection strategies) compare with a
+    strict weak ordering: `<` or `>` on fitness values or on `std::pair<bool, fitness_t>`, never with
+    `>=`, `<=` or the partial order `dominating` -/
+theorem ranking_users_strict_weak :
+    ∀ u ∈ Gen.users, needsStrictWeakOrder u = true → (u.2.2.1, u.2.2.2) ∈ strictWeakOrders := by decide
+
 /-! ### the bit-pattern instance -/
 
 /-- both zeros have key 0 -/
